@@ -9,6 +9,9 @@ for d in sorted(glob.glob(os.path.join(root, "seeded", "*"))):
         continue
     m = json.load(open(mp))
     det = m.get("detection", [])
+    if m.get("obsolete_after"):
+        rows.append("| %s | %s | (obsolete after %s: %s) | | |" % (m["id"], (m.get("title") or "")[:110].replace("|", "/"), m["obsolete_after"]["commit"], m["obsolete_after"]["why"][:160]))
+        continue
     last = {}
     for r in det:            # latest result per check (records are in chronological order; the checks
         last.pop((r["check"], "quick"), None)      # were strengthened between runs, an older run of
